@@ -19,6 +19,7 @@ type runCfg struct {
 	Ordered bool      `json:"ordered"`
 	Long    bool      `json:"long,omitempty"`  // generator class long-lists (longlists.go)
 	First   bool      `json:"first,omitempty"` // generator class first-touch (firsttouch.go)
+	Edge    bool      `json:"edge,omitempty"`  // generator class edge-int-keys (edgekeys.go)
 }
 
 type replayT struct {
@@ -430,6 +431,9 @@ func classOf(c runCfg) string {
 	if c.Long {
 		return c.L.class() + "/long-lists"
 	}
+	if c.Edge {
+		return c.L.class() + "/edge-int-keys"
+	}
 	if c.Ordered {
 		return c.L.class() + "/ordered"
 	}
@@ -516,6 +520,11 @@ func main() {
 		rounds += lr
 		mismatches += lm
 		deadlocked += ld
+		if divergent < divergentCap {
+			er, em := runEdgeKeys(e, e.Scale(25, 150))
+			rounds += er
+			mismatches += em
+		}
 		e.Meta["deadlocked_runs"] = deadlocked
 		e.Meta["sharded_interface_locker_nil_key"] = probeGrpNil()
 		e.Meta["rounds"] = rounds
